@@ -7,7 +7,7 @@ from vlib import genome as G, pipeline as P
 ID = "C05"
 RULE = ("Trios and two-child quartets on one contig: founders' haplotypes random (extra homozygous sites), children by random "
         "transmission with 0-2 planted recombinations; PED lines and VCF sample columns in independently drawn orders; a share of variants made Mendelian-inconsistent or missing in one "
-        "member (in the VCF only); reads error-free at depth 0-6 per member, or absent altogether (phase without PHASEINPUT); "
+        "member (in the VCF only); reads at depth 0-6 per member (error-free, or in a third of the cases with substitution errors at SNV sites), or absent altogether (phase without PHASEINPUT); "
         "uniform --recombrate (default and extreme values) or a generated --genmap; --tag PS/HP. Oracle on the output VCF: "
         "every phased child genotype a|b has a among the father's and b among the mother's alleles; variants with a conflict "
         "or a missing genotype in the family are unphased in all members; every child-heterozygous variant with a homozygous "
@@ -80,6 +80,7 @@ def gen(draw):
     if noreads:
         c["read_specs"] = []
     # PED lines and VCF columns in independent orders
+    c["read_noise"] = draw(st.integers(0, 10 ** 6)) if draw(st.integers(0, 2)) == 0 else None
     c["ped_order"] = list(draw(st.permutations(names[2:])))
     c["ped_founders"] = draw(st.sampled_from([None, None, "first", "last"]))
     c["vcf_order"] = list(draw(st.permutations(names))) if draw(st.booleans()) else list(names)
@@ -113,6 +114,11 @@ class PedigreePart:
         ref = G.write_fasta(case["contigs"], os.path.join(d, "ref.fa"))
         vcf = G.write_vcf(case, os.path.join(d, "in.vcf"), gts=case["gts"], samples=case.get("vcf_order"))
         reads = G.render_specs(case, case["read_specs"])
+        if case.get("read_noise") is not None:
+            # sequencing errors at SNV sites: the statements of the property do not depend on the reads being right
+            from props.c16_determinism import noisy_reads
+            reads = noisy_reads(case, reads, case["read_noise"])
+            ctx.label("reads-with-errors")
         inputs = []
         if reads:
             inputs = [G.write_bam(case, reads, os.path.join(d, "reads.bam"))]
